@@ -38,12 +38,14 @@ def outJ : Except String Tab → Json
   | .ok t => obj [("rows", arrJ (t.rows.map segJ))]
   | .error e => obj [("raises", strJ e)]
 
-/-- clauses evaluated on the real outcome `impl` = {"rows": …} | {"raises": filter} against the wording `want` -/
+/-- clauses evaluated on the real outcome `impl` = {"rows": …} | {"raises": filter} against the wording `want`.
+    The property speaks about the tables the filters produce: where its wording yields a table, a refusal or another
+    table is a violation; where the wording itself is a refusal (a required column missing -- e.g. a list holding both
+    ci and sem) the property says nothing, and the comparison with the model (not a spec clause) is what is checked. -/
 def chainSpec (clause : String) (conserve : Bool) (inp : List Seg) (want : Except String Tab) (impl : Json) : R (List String) := do
   match want, optFld impl "raises" with
-  | .error e, some r => pure (if (← getStr r) == e then [] else ["raises_for_the_missing_column"])
-  | .error _, none => pure ["raises_for_the_missing_column"]
-  | .ok _, some _ => pure ["raises_for_the_missing_column"]
+  | .error _, _ => pure []
+  | .ok _, some r => pure [s!"refuses_filter_{← getStr r}"]
   | .ok w, none =>
     let o ← getList getSeg (← fld impl "rows")
     let c := if conserve then
